@@ -7,11 +7,14 @@
 //!   ruschm-sim selfcheck determinism [ID...]
 
 mod engine_a;
+mod engine_b;
+mod engine_c;
 mod framework;
 mod hashseed;
 mod observe;
 mod refint;
 mod rng;
+mod sandbox;
 mod sexp;
 
 use framework::Engine;
@@ -20,11 +23,14 @@ fn engine_for(prop: &str) -> Option<&'static dyn Engine> {
     match prop {
         "C03" => Some(&engine_a::ENGINE_C03),
         "C08" => Some(&engine_a::ENGINE_C08),
+        "C12" => Some(&engine_c::ENGINE_C12),
+        "C13" => Some(&engine_b::ENGINE_C13),
+        "C14" => Some(&engine_b::ENGINE_C14),
         _ => None,
     }
 }
 
-const ALL: &[&str] = &["C03", "C08"];
+const ALL: &[&str] = &["C03", "C08", "C12", "C13", "C14"];
 
 fn main() {
     hashseed::install_panic_hook();
